@@ -251,7 +251,7 @@ def run(ctx):
                 hists.append(H.run_history(ad, worker, ops))
             for i in range(nh):
                 ln = int(rng.integers(4, L + 1))
-                hists.append(H.run_history(ad, worker, [ad.gen_op(rng) for _ in range(ln)]))
+                hists.append(H.run_history(ad, worker, ad.gen_history(rng, ln)))
             allh[mod] = (ad, hists)
             texts.append(correspondence(ad, hists, mod))
             for h in hists:
